@@ -48,7 +48,7 @@ def asmk_w32(z):
     z &= 0xFFFFFFFF
     return z - (1 << 32) if z >= (1 << 31) else z
 
-def run_history(hist):
+def run_history(hist, only_failed=False):
     """hist: list of (op, name, arg).  Returns (text, expected) where expected is 'DIAG' or bytes"""
     A = Abstract()
     lines = ["@org $100", "sc1:"]
@@ -100,6 +100,8 @@ def run_history(hist):
             e = A.inline(('add', d, 0))
             A.bytes.append(e & 255 if isinstance(e, int) else ('late', e)); A.here += 1
     text = "\n".join(lines) + "\n"
+    if only_failed:
+        return A.failed
     if A.failed:
         return text, "DIAG"
     # link: every touched name must be defined and solvable at the end; late uses take the final value
@@ -150,7 +152,20 @@ def run(ck):
     ck.exhaustive = True
     ck.extra["exhaustive_part"] = "all op sequences up to length %d over %d ops" % (L, len(OPS))
     for _ in range(6000 if thorough else 1500):
-        hists.append([gen_step(rng) for _ in range(rng.choice([2, 4, 6, 10, 20, 40]))])
+        # mostly valid histories: a step that the abstract machine rejects on the spot is usually re-drawn,
+        # and names still undefined at the end are usually given a definition
+        h = []
+        for _ in range(rng.choice([2, 4, 6, 10, 20, 40])):
+            for attempt in range(6):
+                st = gen_step(rng)
+                if run_history(h + [st], only_failed=True) is None or rng.random() < 0.1:
+                    break
+            h.append(st)
+        if rng.random() < 0.85:
+            for n in ["gg1", "gg2", "sc1.ll1"]:
+                if run_history(h + [("defn", n, 5)], only_failed=True) is None:
+                    h.append(("defn", n, 5))
+        hists.append(h)
     progs, expect = [], []
     for h in hists:
         t, e = run_history(h)
